@@ -182,8 +182,9 @@ class FaultInjector:
     MODS = ['file_builder.file_builder', 'file_builder.cache', 'file_builder.file_backups']
     OPS = ['mkdir', 'makedirs', 'rename', 'replace', 'rmdir']
 
-    def __init__(self, k=None):
+    def __init__(self, k=None, op=None):
         self.k = k
+        self.op = op     # fire at the first call of this kind instead of the k-th call
         self.count = 0
         self.fired = None
         self.log = []
@@ -200,7 +201,7 @@ class FaultInjector:
                 return
         self.count += 1
         self.log.append([op, path])
-        if self.k is not None and self.count == self.k and self.fired is None:
+        if self.fired is None and ((self.k is not None and self.count == self.k) or (self.op is not None and op == self.op)):
             in_call = list(self.ctx.call_stack[-1]) if self.ctx is not None and self.ctx.call_stack else ['root']
             self.fired = {'op': op, 'path': path, 'in_call': in_call, 'k': self.k,
                           'root_returned': bool(self.ctx is not None and getattr(self.ctx, 'root_returned', False))}
@@ -312,7 +313,8 @@ def run_case(case, hooks=None, mutate=False):
                 if hooks and 'pre_build' in hooks:
                     hooks['pre_build'](ctx, root, cache_abs)
                 opts = st[5] if len(st) > 5 and isinstance(st[5], dict) else {}
-                inj = FaultInjector(opts.get('inject')) if (opts.get('inject') is not None or opts.get('count_faults')) else None
+                inj = (FaultInjector(opts.get('inject'), opts.get('inject_op'))
+                       if (opts.get('inject') is not None or opts.get('inject_op') or opts.get('count_faults')) else None)
                 if inj is not None:
                     inj.ctx = ctx
                     inj.__enter__()
